@@ -19,8 +19,8 @@ def run(tier, only=None):
                             backend='cadical', object_bits=12, mem_gb=24,
                             meta={'message_length': 'symbolic 12..%d' % nmax, 'background': 'all contents',
                                   'layout': 'maximum-size object + 3 pad + 8 guard bytes'}))
-    ns = list(range(12, 97)) if tier == 'quick' else list(range(12, 161)) + \
-        [255, 256, 257, 1020, 1021, 1022, 1023, 1024, 1025, 2040, 2041, 2042, 2043, 2044]
+    BOUNDARY = [253, 254, 255, 256, 257, 258, 1019, 1020, 1021, 1022, 1023, 1024, 1025, 2040, 2041, 2042, 2043, 2044]
+    ns = (list(range(12, 97)) if tier == 'quick' else list(range(12, 161))) + BOUNDARY
     for n in ns:
         jobs.append(Job('c09.E.n%d' % n, V.c09_extent(n), SRC, unwind=max(70, n + 16), unwindset=WALKER,
                         timeout=600, object_bits=12,
@@ -30,7 +30,7 @@ def run(tier, only=None):
                         unwind=70, unwindset=WALKER, meta={'values': 'all 512 length-field values'}))
     chk.run(jobs)
     chk.assumptions = STD_ASSUME + ['message lengths 12..2044 (ACF maximum); lengths below the 12-byte fixed header are not messages',
-                                    '(E) exact-extent queries: quick every n in 12..96; thorough 12..160 plus boundary lengths up to 2044']
+                                    '(E) exact-extent queries: quick every n in 12..96, thorough 12..160, both plus the type-boundary lengths around 255/256, 1020..1025 and 2040..2044']
     return chk.finish(
         rule='(F) symbolic message length on a maximum-size object, whole object compared with the reference; '
              '(E) one query per concrete length on an object of exactly n+pad bytes; all 512 length values through '
